@@ -247,6 +247,12 @@ def step (s : Sys) (line : String) : IO Sys := do
     let snap := !(hasFlag rest "nosnap")
     let s' : Sys := { w := World.init (cap.toNat?.getD 1024) (rel.toNat?.getD 128) maxc, snap, lineNo := s.lineNo }
     emitResult s' "ok"
+  | ["rebuild", cap, rel] =>
+    -- a NEW world with the same component types registered in the same order; dumps survive,
+    -- every handle, filter, observer and query of the old world is forgotten
+    let w0 := World.init (cap.toNat?.getD 1024) (rel.toNat?.getD 128) s.w.maxComps
+    let w1 := s.w.kinds.foldl (fun (w : World) k => (registerComponent k w).state) w0
+    emitResult { s with w := w1, labels := [], epoch := [], oldLabels := [], queries := [], qFilter := [] } "ok"
   | ["reg", name, kind, size] =>
     match numOf name with
     | none => skip
@@ -262,7 +268,8 @@ def step (s : Sys) (line : String) : IO Sys := do
     let mut last := "ok"
     for _ in List.range cnt do
       let (s', r) := s.run (registerComponent { size := s.fillers + 1 })
-      s := { s' with fillers := s'.fillers + 1 }
+      -- a rejected registration is retried with the same filler type
+      s := match r with | .ok _ => { s' with fillers := s'.fillers + 1 } | .error _ => s'
       last := resStr r fun _ => ""
     emitResult s last
   | "new" :: lbl :: path :: rest =>
@@ -404,6 +411,22 @@ def step (s : Sys) (line : String) : IO Sys := do
       match qEntity s.w qo with
       | some e => emitResult s ("ok " ++ s.fmtEntity e (some ids))
       | none => emitResult s "panic queryGet"
+    | none => skip
+  | ["qgetc", q, c] =>
+    match (numOf q).bind fun l => (AL.find? s.queries l).map fun qo => (l, qo) with
+    | some (l, qo) =>
+      let unsafeQ := ((AL.find? s.qFilter l).bind (AL.find? s.w.filters)).map (fun fo => !fo.typed) |>.getD false
+      match unsafeQ, (numOf c).bind s.compID with
+      | true, some cid =>
+        -- a missing column is a nil dereference in both builds; the cursor is valid (generator)
+        match qo.cur with
+        | some t =>
+          if qo.table < 0 then emitResult s "panic runtime" else
+          match (s.w.tbl t).getComp cid qo.index with
+          | some v => emitResult s s!"ok {v}"
+          | none => emitResult s "panic runtime"
+        | none => emitResult s "panic runtime"
+      | _, _ => skip
     | none => skip
   | ["qclose", q] =>
     match (numOf q).bind fun l => (AL.find? s.queries l).map fun qo => (l, qo) with
